@@ -503,11 +503,16 @@ func (r *c32Rig) storeObserve(name string) (version int, exact bool) {
 	if !ok {
 		return -1, true
 	}
-	ns := &models.Namespace{}
-	if err := json.Unmarshal([]byte(raw), ns); err != nil {
+	// loaded the way a proxy loads it: real Store.LoadNamespace (Unmarshal, Verify, Decrypt)
+	// through the real etcd client; a stored document that cannot be loaded is "-2"
+	_ = raw
+	st, err := r.store()
+	if err != nil {
 		return -2, false
 	}
-	if err := ns.Decrypt(c32Key); err != nil {
+	defer st.Close()
+	ns, err := st.LoadNamespace(c32Key, name)
+	if err != nil || ns == nil {
 		return -2, false
 	}
 	want := c32Namespace(name, ns.MaxSqlExecuteTime)
@@ -558,24 +563,43 @@ func c32Fault(kind string, op string, attempt int) cckit.Fault {
 	return cckit.FaultOK
 }
 
-// c32Gate lets the admin requests of two concurrent changes through in a fixed order: an
-// event ("pA" = prepare of change A, "cB" = commit of change B ...) may start on any proxy
-// only when every event scheduled before it has completed on all proxies, or its change's
-// control-plane call has returned.
+// c32Gate lets the admin requests of two overlapping changes through in a fixed order. A
+// schedule entry is an event ("pA" = prepare of change A, "cB" = commit of B, "dB" = delete
+// request of B) for all proxies, or "pB@0,2" for the listed proxies only. A request may start
+// only when every entry scheduled before its own has completed on all its proxies, or its
+// change's control-plane call has returned.
 type c32Gate struct {
 	mu       sync.Mutex
-	schedule []string
-	done     map[string]bool
-	left     map[string]int
-	seen     map[string]bool // proxy/event already counted (prepare may be retried)
+	groups   []c32Group
+	done     map[string]bool // "ev@proxy"
 	wake     chan struct{}
 	timedOut bool
 }
 
+type c32Group struct {
+	ev      string
+	proxies []int
+}
+
 func c32NewGate(schedule []string, n int) *c32Gate {
-	g := &c32Gate{schedule: schedule, done: map[string]bool{}, left: map[string]int{}, seen: map[string]bool{}, wake: make(chan struct{})}
+	g := &c32Gate{done: map[string]bool{}, wake: make(chan struct{})}
 	for _, e := range schedule {
-		g.left[e] = n
+		grp := c32Group{ev: e}
+		if i := strings.Index(e, "@"); i >= 0 {
+			grp.ev = e[:i]
+			for _, f := range strings.Split(e[i+1:], ",") {
+				var k int
+				fmt.Sscan(f, &k)
+				if k < n {
+					grp.proxies = append(grp.proxies, k)
+				}
+			}
+		} else {
+			for k := 0; k < n; k++ {
+				grp.proxies = append(grp.proxies, k)
+			}
+		}
+		g.groups = append(g.groups, grp)
 	}
 	return g
 }
@@ -585,18 +609,31 @@ func (g *c32Gate) broadcast() { // callers hold mu
 	g.wake = make(chan struct{})
 }
 
-func (g *c32Gate) enter(ev string) {
+func (g *c32Gate) groupOf(ev string, proxy int) int {
+	for i, grp := range g.groups {
+		if grp.ev != ev {
+			continue
+		}
+		for _, p := range grp.proxies {
+			if p == proxy {
+				return i
+			}
+		}
+	}
+	return len(g.groups)
+}
+
+func (g *c32Gate) enter(ev string, proxy int) {
 	watchdog := time.After(20 * time.Second) // firing => inconclusive, never a verdict
 	for {
 		g.mu.Lock()
 		ready := true
-		for _, e := range g.schedule {
-			if e == ev {
-				break
-			}
-			if !g.done[e] {
-				ready = false
-				break
+		upto := g.groupOf(ev, proxy)
+		for _, grp := range g.groups[:upto] {
+			for _, p := range grp.proxies {
+				if !g.done[fmt.Sprint(grp.ev, "@", p)] {
+					ready = false
+				}
 			}
 		}
 		w := g.wake
@@ -619,14 +656,7 @@ func (g *c32Gate) enter(ev string) {
 
 func (g *c32Gate) leave(proxy int, ev string) {
 	g.mu.Lock()
-	k := fmt.Sprint(proxy, "/", ev)
-	if !g.seen[k] {
-		g.seen[k] = true
-		g.left[ev]--
-		if g.left[ev] <= 0 {
-			g.done[ev] = true
-		}
-	}
+	g.done[fmt.Sprint(ev, "@", proxy)] = true
 	g.broadcast()
 	g.mu.Unlock()
 }
@@ -634,9 +664,11 @@ func (g *c32Gate) leave(proxy int, ev string) {
 // abandon marks every event of change x (A/B) done: its control-plane call has returned.
 func (g *c32Gate) abandon(x string) {
 	g.mu.Lock()
-	for _, e := range g.schedule {
-		if strings.HasSuffix(e, x) {
-			g.done[e] = true
+	for _, grp := range g.groups {
+		if strings.HasSuffix(grp.ev, x) {
+			for _, p := range grp.proxies {
+				g.done[fmt.Sprint(grp.ev, "@", p)] = true
+			}
 		}
 	}
 	g.broadcast()
@@ -674,7 +706,7 @@ func (r *c32Rig) run(c c32Case) (res c32Result, inconclusive string) {
 	for k := range kinds {
 		kinds[k] = c.kindOf(k)
 		prev[k] = c32V0
-		if kinds[k] == "create" {
+		if kinds[k] == "create" || kinds[k] == "createbad" {
 			prev[k] = -1
 		}
 	}
@@ -772,7 +804,7 @@ func (r *c32Rig) run(c c32Case) (res c32Result, inconclusive string) {
 			res.Events[q.Op+":"+f.String()]++
 			mu.Unlock()
 			if ev := evName(q); ev != "" {
-				gate.enter(ev)
+				gate.enter(ev, i)
 			}
 			return f
 		})
@@ -794,6 +826,12 @@ func (r *c32Rig) run(c c32Case) (res c32Result, inconclusive string) {
 			switch kinds[k] {
 			case "delete":
 				errs[k] = DelNamespace(res.Names[k], r.ccCfg, c32Cluster)
+			case "modifybad", "createbad":
+				// accepted by models.Namespace.Verify, refused by the proxies' NewNamespace at
+				// prepare (down_after_no_alive < 0): a real refusal, not a shim fault
+				bad := c32Namespace(res.Names[k], c32V1)
+				bad.DownAfterNoAlive = -1
+				errs[k] = ModifyNamespace(bad, r.ccCfg, c32Cluster)
 			default:
 				errs[k] = ModifyNamespace(c32Namespace(res.Names[k], c32V1), r.ccCfg, c32Cluster)
 			}
@@ -958,7 +996,7 @@ func c32Sig(c c32Case, broken []string) string {
 // into ok / a "1" (first attempt only) fault into nothing.
 func c32Weaker(c c32Case) []c32Case {
 	var out []c32Case
-	if len(c.Proxies) > 1 {
+	if len(c.Proxies) > 1 && !strings.Contains(strings.Join(c.Schedule, " "), "@") {
 		for i := range c.Proxies {
 			d := c32Case{Kind: c.Kind, Schedule: c.Schedule, Kinds: c.Kinds}
 			d.Proxies = append(append([]c32PF{}, c.Proxies[:i]...), c.Proxies[i+1:]...)
@@ -1038,6 +1076,9 @@ func c32Events(kind, x string) []string {
 	if kind == "delete" {
 		return []string{"d" + x}
 	}
+	if kind == "modifybad" || kind == "createbad" {
+		return []string{"p" + x} // the prepare is refused by every proxy, no commit follows
+	}
 	return []string{"p" + x, "c" + x}
 }
 
@@ -1087,6 +1128,63 @@ func c32ConcurrentCases(n int) []c32Case {
 	return out
 }
 
+// c32BadPrepareCases: a good change A (modify or create) overlapping a change B of another
+// namespace whose configuration passes Verify but is refused by every proxy at prepare. On
+// each proxy B's refused prepare arrives before prepare(A), between prepare(A) and commit(A),
+// or after commit(A); every assignment of these three positions to the n proxies (one per
+// multiset unless ordered) is a case.
+func c32BadPrepareCases(n int, ordered bool) []c32Case {
+	var out []c32Case
+	idx := make([]int, n)
+	for {
+		keep := true
+		if !ordered {
+			for i := 1; i < n; i++ {
+				if idx[i] < idx[i-1] {
+					keep = false
+				}
+			}
+		}
+		if keep {
+			slots := make([][]string, 3)
+			for p, sl := range idx {
+				slots[sl] = append(slots[sl], fmt.Sprint(p))
+			}
+			var sch []string
+			for sl, ev := range []string{"pA", "cA", ""} {
+				if len(slots[sl]) > 0 {
+					sch = append(sch, "pB@"+strings.Join(slots[sl], ","))
+				}
+				if ev != "" {
+					sch = append(sch, ev)
+				}
+			}
+			for _, ka := range []string{"modify", "create"} {
+				for _, kb := range []string{"modifybad", "createbad"} {
+					c := c32Case{Kind: "concurrent", Kinds: []string{ka, kb}, Schedule: sch}
+					for p := 0; p < n; p++ {
+						c.Proxies = append(c.Proxies, c32PF{P: c32OK, C: c32OK})
+					}
+					out = append(out, c)
+				}
+			}
+		}
+		i := 0
+		for i < n {
+			idx[i]++
+			if idx[i] < 3 {
+				break
+			}
+			idx[i] = 0
+			i++
+		}
+		if i == n {
+			break
+		}
+	}
+	return out
+}
+
 // c32ReachesCommit: no persistent fault on any prepare phase, so the commit phase runs.
 func c32ReachesCommit(c c32Case) bool {
 	for _, p := range c.Proxies {
@@ -1111,6 +1209,7 @@ func c32Space() (all []c32Case, exhaustive bool) {
 	var conc []c32Case
 	for n := 1; n <= 3; n++ {
 		conc = append(conc, c32ConcurrentCases(n)...)
+		conc = append(conc, c32BadPrepareCases(n, n == 2)...)
 	}
 	pick := func(from []c32Case, k int) []c32Case {
 		var out []c32Case
@@ -1170,7 +1269,7 @@ func TestVerif_C32(t *testing.T) {
 	rec := kit.Start("C32", "fault_enumeration",
 		"cases = change kind {create, modify, delete} x 1..3 registered real proxies x per proxy a fault on the prepare phase "+
 			"(ok, ping fails, error reply before acting, act-then-drop; for <=2 proxies also first-attempt-only variants) and on the commit phase "+
-			"(ok, ping fails, error reply, act-then-drop); plus two overlapping changes of different namespaces for every pair of kinds (modify/create/delete) under every interleaving of their prepare/commit/delete requests (gated in the shims, 19 schedules), with a final proxy-equals-store re-check; "+
+			"(ok, ping fails, error reply, act-then-drop); plus two overlapping changes of different namespaces for every pair of kinds (modify/create/delete) under every interleaving of their prepare/commit/delete requests (gated in the shims, 19 schedules), with a final proxy-equals-store re-check; plus a good change overlapping a change of another namespace that every proxy refuses at prepare (config valid for Verify, rejected by NewNamespace), the refused prepare placed per proxy before/between/after the good change's prepare and commit; "+
 			"thorough enumerates all placements, quick all 1-proxy placements and a seeded sample of the others; non-trivial = a fault was injected or two changes overlapped; "+
 			"key = the case")
 	defer rec.Finish(t)
